@@ -472,6 +472,39 @@ def run(ck, prog, ctx):
                         ck.ob("MERGE", "arm/%s/append" % nm, False, "%s arm of the merge appends nothing" % nm, where=bor.where(x.line))
                 ck.floor("MERGE", "drain arms", drains, 2)
 
+    # ------------------------------------------------------------------ SHORTCUT: early returns of the binary set operators
+    # `a | b` may answer with a copy of ONE operand only when the OTHER one is empty; `a & b` with a copy of one operand only when THAT one is empty
+    # (result empty).  A shortcut that tests the wrong operand drops the members of the other one.
+    pvc_ = Prov(prog, inline=False, mutflow=False)
+    n_short = 0
+    for trait, sym, want_other in (("BitOr", "|", True), ("BitAnd", "&", False)):
+        ob_ = prog.body("<&%s as std::ops::%s>::%s" % (G, trait, trait.lower()))
+        if ob_ is None:
+            continue
+        tests = []
+        for bi, t in ob_.calls():
+            if t.callee.method == "is_empty" and len(t.args) == 1:
+                q = params_of(pvc_.of_operand(ob_, t.args[0]), ob_.id)
+                if len(q) == 1:
+                    tests.append((next(iter(q)), positive_edges(ob_, pvn, bi)))
+        for bi, t in ob_.calls():
+            if not (t.callee.method == "clone" and t.dest is not None and t.dest.is_local() and t.dest.local == 0 and len(t.args) == 1):
+                continue
+            ps = params_of(pvc_.of_operand(ob_, t.args[0]), ob_.id)
+            if len(ps) != 1 or not (ps <= {1, 2}):
+                continue
+            p_ret = next(iter(ps))
+            n_short += 1
+            key = "shortcut/%s/returns-%s" % (trait.lower(), ob_.local_name(p_ret))
+            dom = [q for q, edges in tests if any(ob_.edge_dominates(e, bi) for e in edges)]
+            if not dom:
+                ck.undecided("MERGE", key, "`%s` returns a copy of `%s` on a path that is not guarded by an is_empty() test of an operand" % (sym, ob_.local_name(p_ret)), where=ob_.where(t.line))
+                continue
+            want_q = (3 - p_ret) if want_other else p_ret
+            ok = want_q in dom
+            ck.ob("MERGE", key, ok, "`%s` answers with a copy of `%s` when `%s` is empty%s" % (sym, ob_.local_name(p_ret), "/".join(ob_.local_name(q) for q in dom), "" if ok else (": the union of a non-empty `%s` with an empty `%s` must be `%s`" % (ob_.local_name(3 - p_ret), ob_.local_name(p_ret), ob_.local_name(3 - p_ret)) if want_other else ": the intersection is not `%s` just because the other operand is empty" % ob_.local_name(p_ret))), where=ob_.where(t.line))
+    ck.extra["set-operator shortcuts examined"] = n_short
+
     # ------------------------------------------------------------------ ROLE: ancestor queries
     T = "term::hpoterm::HpoTerm::<'a>::"
 
